@@ -266,6 +266,17 @@ theorem with_scoped_on_every_exit (limit : Nat) :
         = st.pushed := ih
     rw [render]; simp only [hn, if_false, h]
     simp only [State.pop, ih']
+  -- include: too deep (tag) / too deep (partial) / rendered
+  · intro depth base globals st body h; rw [render]; simp only [h, if_true]
+  · intro depth base globals st body h h2; rw [render]; simp only [h, if_false, h2, if_true]
+  · intro depth base globals st body h h2 ih
+    have ih' : (renderList limit depth base globals ((st.push []).push []) body).1.pushed
+        = [] :: [] :: st.pushed := ih
+    rw [render]; simp only [h, if_false, h2]
+    simp only [State.pop, ih', List.tail_cons]
+  -- render: too deep / rendered
+  · intro depth base globals st args body h; rw [render]; simp only [h, if_true]
+  · intro depth base globals st args body ns h _; rw [render]; simp only [h, if_false]
   -- macro definition
   · intros; simp [render]
   -- call: unknown / too deep / rendered
@@ -338,6 +349,37 @@ theorem call_leaves_caller_state (limit depth base : Nat) (globals : List NS) (s
   cases dictGet st.macros name with
   | none => rfl
   | some m => simp only []; split <;> rfl
+
+/-! ## Macros across templates: `include` shares them, `render` isolates them -/
+
+/-- **include_shares_macros**: a macro defined by an included template is registered in the *parent's*
+state — the parent (and any template it includes later) can call it. -/
+theorem include_shares_macros (limit depth base : Nat) (globals : List NS) (st : State) (f : Name)
+    (ps : List (Name × Option Expr)) (b : List Node) (hlim : base + (st.pushed.length + 1) ≤ limit) :
+    render limit depth base globals st (.included [.macroDef f ps b])
+      = ({ st with macros := dictSet st.macros f { params := parseParams ps, body := b } }, "", .normal) := by
+  have h1 : ¬ base + st.pushed.length > limit := by omega
+  have h2 : ¬ base + (st.pushed.length + 1) > limit := by omega
+  rw [render]; simp only [h1, h2, if_false]
+  rw [renderList, render]
+  simp [renderList, State.push, State.pop]
+
+/-- **render_isolates_state**: whatever a rendered partial assigns or defines (macros included), the caller's
+state is what it was. -/
+theorem render_isolates_state (limit depth base : Nat) (globals : List NS) (st : State)
+    (args : List (Name × Expr)) (body : List Node) :
+    (render limit depth base globals st (.isolated args body)).1 = st := by
+  rw [render]; simp only []; split <;> rfl
+
+/-- **render_hides_macros**: a macro of the caller cannot be called from a rendered partial (the copy has
+its own, empty, macro table): the call renders nothing. -/
+theorem render_hides_macros (limit depth base : Nat) (globals : List NS) (st : State)
+    (args : List (Name × Expr)) (f : Name) (pos : List Expr) (kw : List (Name × Expr)) (hd : depth ≤ limit) :
+    render limit depth base globals st (.isolated args [.call f pos kw]) = (st, "", .normal) := by
+  have h : ¬ depth > limit := by omega
+  rw [render]; simp only [h, if_false]
+  rw [renderList, render]
+  simp [renderList, dictGet]
 
 /-- **with_visible_inside**: the rendered form of `with_shadows` — `{% with …, k: e, … %}{{ k }}{% endwith %}`
 prints the value of `e` taken outside the block and leaves the state alone. -/
